@@ -245,7 +245,8 @@ INVOKE_CASES = [
     ("z::MemFnRef", ["z::Poly&"]), ("z::MemFnRef", ["z::Poly&&"]), ("int", []), ("int", ["int"]),
     ("z::FnPtrNoexcept", ["int"]), ("z::FnPtrNoexcept", ["z::Pod"]), ("void", []), ("z::Pod", ["int"]),
 ]
-INVOKE_R = ["void", "int", "long", "z::Pod", "z::ImplicitFromInt", "z::ExplicitFromInt", "int&", "int const&"]
+INVOKE_R = ["void", "int", "void const", "long", "z::Pod", "z::ImplicitFromInt", "z::ExplicitFromInt", "int&", "int const&", "void volatile",
+            "void const volatile"]
 
 LIMIT_TYPES = ["bool", "char", "signed char", "unsigned char", "char8_t", "short", "unsigned short", "int",
                "unsigned", "long", "unsigned long", "long long", "unsigned long long", "float", "double",
@@ -405,7 +406,10 @@ def generate(quick):
                    % (ln, al, ln, ln, al, ln, al, ln, al, ln, al), "aligned_storage_t<%d,%d>" % (ln, al))
     if "aligned_union" in traits:
         paired.add("aligned_union")
-        for ln, ts in ((1, "char, int"), (32, "char, double"), (0, "z::Pod, long double"), (3, "short")):
+        # ascending, descending and mixed orders of size / alignment: the maximum is over the whole list
+        for ln, ts in ((1, "char, int"), (32, "char, double"), (0, "z::Pod, long double"), (3, "short"), (0, "char, double, int"),
+                       (0, "double, char"), (0, "char[7], char[3]"), (0, "int, char[9], short"), (2, "long double, char, int"),
+                       (0, "char, long long, short, char[5]")):
             tu.add("static_assert(sizeof(etl::aligned_union_t<%d, %s>) == sizeof(std::aligned_union_t<%d, %s>) && alignof(etl::aligned_union_t<%d, %s>) == alignof(std::aligned_union_t<%d, %s>));"
                    % (ln, ts, ln, ts, ln, ts, ln, ts), "aligned_union_t<%d,%s>" % (ln, ts))
     # -- binary predicates / transformations: sharded
@@ -463,7 +467,7 @@ def generate(quick):
             tu.add("static_assert(etl::invocable<%s> == std::invocable<%s>);" % (al, al), "concept invocable<%s>" % al)
         if "is_invocable_r" in traits:
             paired.add("is_invocable_r")
-            for r in INVOKE_R[: (3 if quick else len(INVOKE_R))]:
+            for r in INVOKE_R[: (4 if quick else len(INVOKE_R))]:
                 tu.add("static_assert(etl::is_invocable_r_v<%s, %s> == std::is_invocable_r_v<%s, %s>);" % (r, al, r, al),
                        "is_invocable_r_v<%s, %s>" % (r, al))
     for n in CONCEPT_UNARY:
